@@ -140,6 +140,16 @@ class Site:
         self.cls, self.total, self.how = cls, total, how
 
 
+def clone_store(e):
+    from ..srcmodel import clone
+    t = clone(e)
+    for n in ast.walk(t):
+        if hasattr(n, 'ctx'):
+            n.ctx = ast.Load()
+    t.ctx = ast.Store()
+    return t
+
+
 class LogSpace(Structured):
     """Analyse one function; collects exponentiation sites and element stores of exp results."""
 
@@ -436,6 +446,20 @@ class LogSpace(Structured):
         return st
 
     def on_expr(self, st, e, s):
+        # `X.exp(out=X)` / `np.exp(X, out=X)` as a statement: the element is replaced by its exponential (same as X = X.exp(out=X))
+        if isinstance(s, ast.Expr) and isinstance(e, ast.Call):
+            out = next((k.value for k in e.keywords if k.arg == 'out'), None)
+            f = e.func
+            src = None
+            if isinstance(f, ast.Attribute) and f.attr == 'exp' and not e.args:
+                src = f.value
+            elif self.is_np(e, {'exp'}) and len(e.args) == 1:
+                src = e.args[0]
+            if out is not None and src is not None and self.place(out) is not None and self.place(out) == self.place(src):
+                fake = ast.copy_location(ast.Assign(targets=[clone_store(out)], value=e), s)
+                ast.fix_missing_locations(fake)
+                return self.on_assign(st, fake)
+
         self.form(e, st, s)
         return st
 
